@@ -29,7 +29,7 @@ FILES = {
     "parser/src/soft_keywords.rs": ["C01", "C08", "C10", "C03"],
     "parser/src/function.rs": ["C04", "C01"],
     "parser/src/parser.rs": ["C09", "C01", "C10"],
-    "parser/src/lexer/cursor.rs": ["C05", "C01"],
+    "parser/src/python.rs": ["C01", "C02", "C07"],
     "literal/src/escape.rs": ["C16", "C11"],
     "literal/src/float.rs": ["C17", "C18", "C19"],
     "literal/src/format.rs": ["C17", "C18"],
@@ -102,6 +102,61 @@ def candidates():
                             new = rep
                         out.append({"file": rel, "line": ln, "col": m.start(), "old": m.group(0), "new": new, "op": pat})
     return out
+
+
+GRAMMAR_OPS = [
+    (r"ast::Operator::(\w+)", ["Add", "Sub", "Mult", "Div", "Mod", "Pow", "LShift", "RShift", "BitOr", "BitXor", "BitAnd", "FloorDiv", "MatMult"]),
+    (r"ast::CmpOp::(\w+)", ["Eq", "NotEq", "Lt", "LtE", "Gt", "GtE", "Is", "IsNot", "In", "NotIn"]),
+    (r"ast::UnaryOp::(\w+)", ["Invert", "Not", "UAdd", "USub"]),
+    (r"ast::BoolOp::(\w+)", ["And", "Or"]),
+    (r"ast::ExprContext::(\w+)", ["Load", "Store", "Del"]),
+    (r"ast::ConversionFlag::(\w+)", ["None", "Str", "Ascii", "Repr"]),
+]
+
+
+def grammar_candidates():
+    """Mutations of the grammar actions in the generated parser (parser/src/python.rs, `fn __action…` bodies only):
+    another variant of the same enum, `end_location` -> `location` (and back) in range expressions, `.start()` <->
+    `.end()`, boolean flags, integer constants."""
+    rel = "parser/src/python.rs"
+    lines = open(os.path.join("/repo", rel), encoding="utf-8").read().split("\n")
+    out = []
+    first = next(i for i, l in enumerate(lines) if l.startswith("fn __action"))
+    for ln in range(first, len(lines)):
+        line = lines[ln]
+        code = line.split("//")[0]
+        if "TextSize, TextSize, TextSize" in code or code.strip().startswith(("fn ", "#[", ">(", ") ->")):
+            continue
+        for pat, variants in GRAMMAR_OPS:
+            for m in re.finditer(pat, code):
+                cur = m.group(1)
+                if cur not in variants:
+                    continue
+                alt = variants[(variants.index(cur) + 1) % len(variants)]
+                out.append({"file": rel, "line": ln, "col": m.start(1), "old": cur, "new": alt, "op": "enum-variant"})
+        for pat, new in ((r"\bend_location\b", "location"), (r"(?<![_\w])location\b", "end_location"), (r"\.start\(\)", ".end()"), (r"\.end\(\)", ".start()"),
+                         (r"\btrue\b", "false"), (r"\bfalse\b", "true")):
+            for m in re.finditer(pat, code):
+                if "(_, " in code:
+                    continue   # a parameter binding, not a use
+                out.append({"file": rel, "line": ln, "col": m.start(), "old": m.group(0), "new": new, "op": pat})
+        for m in re.finditer(r"(?<![\w.])([0-9]+)(?![\w.])", code):
+            v = int(m.group(1))
+            out.append({"file": rel, "line": ln, "col": m.start(), "old": m.group(0), "new": str(v + 1), "op": "const+1"})
+    return out
+
+
+def gen_grammar(seed, count):
+    os.makedirs(ROOT, exist_ok=True)
+    c = grammar_candidates()
+    rng = random.Random(seed)
+    rng.shuffle(c)
+    plan = c[:count]
+    for i, m in enumerate(plan):
+        m["id"] = 10000 + i
+    json.dump({"seed": seed, "candidates": len(c), "plan": plan}, open(os.path.join(ROOT, "plan_grammar.json"), "w"), indent=0)
+    from collections import Counter
+    print("candidates", len(c), "planned", len(plan), Counter(m["op"] for m in plan))
 
 
 def gen(seed, count):
@@ -197,8 +252,11 @@ def worker(k, todo, jobs):
         shutil.rmtree(os.path.join("/verif/build", "alt-" + hashlib.sha1(wt.encode()).hexdigest()[:10]), ignore_errors=True)
 
 
+PLAN = "plan.json"
+
+
 def run(jobs, lo, hi, ids=None):
-    plan = json.load(open(os.path.join(ROOT, "plan.json")))["plan"]
+    plan = json.load(open(os.path.join(ROOT, PLAN)))["plan"]
     if ids:
         todo = [m for m in plan if m["id"] in ids]
         return _spawn(todo, jobs)
@@ -265,7 +323,11 @@ if __name__ == "__main__":
     a = sys.argv[1:]
     def opt(name, d):
         return int(a[a.index(name) + 1]) if name in a else d
-    if a[0] == "gen":
+    if "--plan" in a:
+        PLAN = a[a.index("--plan") + 1]
+    if a[0] == "gen-grammar":
+        gen_grammar(opt("--seed", 1), opt("--count", 150))
+    elif a[0] == "gen":
         gen(opt("--seed", 1), opt("--count", 300))
     elif a[0] == "run":
         ids = set(int(x) for x in a[a.index("--ids") + 1].split(",")) if "--ids" in a else None
